@@ -253,7 +253,7 @@ def gen_case(rng, tier):
 
 
 def plan(tier, seed, n):
-    per = 4 if tier == 'quick' else 40
+    per = 4 if tier == 'quick' else 60
     return [{'n': per} for _ in range(n)]
 
 
